@@ -476,6 +476,10 @@ class BasicBlock(Value):
             self.__replacements[old] = new
 
     def ReplaceUses(self, old: Union[int, Value], new: Optional[Value]):
+        # The new value may itself be scheduled for replacement
+        while new is not None and new.Reference in self.__replaceUses:
+            new = self.__replaceUses[new.Reference]
+
         if isinstance(old, Value):
             self.__replaceUses[old.Reference] = new
         else:
